@@ -157,8 +157,11 @@ def describe_model(m):
 
     def ty(t):
         if isinstance(t, pydsdl.CompositeType):
+            # nested models are part of the blob too: describe them in depth (DSDL types are not recursive)
             return ["C", type(t).__name__, t.full_name, t.version.major, t.version.minor, t.extent,
-                    [t.bit_length_set.min, t.bit_length_set.max]]
+                    [t.bit_length_set.min, t.bit_length_set.max], bool(t.deprecated), t.doc,
+                    [[f.name, str(f.data_type), ty(f.data_type), f.doc] for f in t.fields],
+                    [[c.name, str(c.data_type), str(c.value.native_value), c.doc] for c in t.constants]]
         if isinstance(t, pydsdl.ArrayType):
             return [type(t).__name__, t.capacity, ty(t.element_type)]
         if isinstance(t, pydsdl.VoidType):
@@ -167,9 +170,9 @@ def describe_model(m):
 
     d = {"class": type(m).__name__, "name": m.full_name, "version": [m.version.major, m.version.minor],
          "deprecated": bool(m.deprecated), "fixed_port_id": m.fixed_port_id, "source": pathlib.Path(m.source_file_path).name,
-         "str": str(m),
-         "fields": [[f.name, str(f.data_type), ty(f.data_type)] for f in m.fields],
-         "constants": [[c.name, str(c.data_type), ty(c.data_type), str(c.value.native_value)] for c in m.constants]}
+         "str": str(m), "doc": m.doc,
+         "fields": [[f.name, str(f.data_type), ty(f.data_type), f.doc] for f in m.fields],
+         "constants": [[c.name, str(c.data_type), ty(c.data_type), str(c.value.native_value), c.doc] for c in m.constants]}
     if isinstance(m, pydsdl.ServiceType):
         d["request"] = describe_model(m.request_type)
         d["response"] = describe_model(m.response_type)
@@ -615,10 +618,11 @@ class WorkerFailed(RuntimeError):
 class NS:
     """One root namespace: texts -> files -> PyDSDL model -> generated package."""
 
-    def __init__(self, ctx, label, texts):
+    def __init__(self, ctx, label, texts, prior=None):
         import pydsdl
         self.label = label
         self.texts = texts
+        self.prior = prior
         self.dir = ctx.scratch / label
         self.src = self.dir / "src"
         self.out = self.dir / "out"
@@ -632,8 +636,23 @@ class NS:
         self.composites = pydsdl.read_namespace(str(root), [], allow_unregulated_fixed_port_id=True)
         self.schema = Schema(self.composites)
         env = dict(os.environ, PYTHONPATH=str(common.REPO / "src"))
-        p = subprocess.run([common.PY, "-m", "nunavut", "--allow-unregulated-fixed-port-id", "--target-language", "py",
-                            "--outdir", str(self.out), str(root)], capture_output=True, text=True, env=env, timeout=900)
+        if prior is not None:
+            # ONE process generates twice: first the prior revision, then this one (nunavut.generate_types as a library)
+            proot = None
+            for rel, text in prior.items():
+                q = self.dir / "prior_src" / rel
+                q.parent.mkdir(parents=True, exist_ok=True)
+                q.write_text(text)
+                proot = self.dir / "prior_src" / pathlib.Path(rel).parts[0]
+            code = ("import sys, pathlib, nunavut\n"
+                    "for r, o in ((sys.argv[1], sys.argv[2]), (sys.argv[3], sys.argv[4])):\n"
+                    "    nunavut.generate_types('py', pathlib.Path(r), pathlib.Path(o), omit_serialization_support=False,\n"
+                    "                           allow_unregulated_fixed_port_id=True)\n")
+            p = subprocess.run([common.PY, "-c", code, str(proot), str(self.dir / "prior_out"), str(root), str(self.out)],
+                               capture_output=True, text=True, env=env, timeout=900)
+        else:
+            p = subprocess.run([common.PY, "-m", "nunavut", "--allow-unregulated-fixed-port-id", "--target-language", "py",
+                                "--outdir", str(self.out), str(root)], capture_output=True, text=True, env=env, timeout=900)
         self.gen_error = None if p.returncode == 0 else (p.stderr or p.stdout)[-1500:]
         if self.gen_error is None:
             try:
@@ -654,6 +673,9 @@ class NS:
         return data["results"], data["numpy"]
 
 
+PRIOR = {}   # corpus label -> texts of a prior revision to be generated first in the same process
+
+
 def corpus_namespaces():
     out = []
     d = common.VERIF / "corpus" / "C18"
@@ -661,6 +683,7 @@ def corpus_namespaces():
         j = json.loads(f.read_text())
         if "files" in j:
             out.append((f.stem, j["files"], j.get("cases", [])))
+            PRIOR[f.stem] = j.get("prior")
     return out
 
 
@@ -1118,6 +1141,8 @@ class NSCheck:
 
     def replay_of(self, case, extra=None):
         r = {"namespace": self.ns.label, "files": self.ns.texts, "case": case}
+        if self.ns.prior:
+            r["prior"] = self.ns.prior
         if case.get("c") is not None:
             r["class"] = self.sch.classes[case["c"]]["full"]
         r.update(extra or {})
@@ -1648,7 +1673,9 @@ def run(ctx):
         ctx.count("random-types", len(g.types))
     ctx.extra["namespaces"] = []
     for label, files, full in spaces:
-        ns = NS(ctx, label, files)
+        ns = NS(ctx, label, files, PRIOR.get(label))
+        if PRIOR.get(label):
+            ctx.count("second-generation-in-one-process-classes", len(ns.schema.classes))
         chk = NSCheck(ctx, drv, ns, npdir, full, n_ops=(4 if ctx.quick else 12), n_rt=(3 if ctx.quick else 10), ops_len=(5 if ctx.quick else 9))
         chk.corpus_cases = corpus_cases.get(label, [])
         chk.run()
@@ -1675,7 +1702,7 @@ def replay(ctx, path):
         print("nothing to replay (no failing input in the file)")
         return 1
     npdir = prepare_numpy(ctx)
-    ns = NS(ctx, "replay", rp["files"])
+    ns = NS(ctx, "replay", rp["files"], rp.get("prior"))
     if ns.gen_error:
         print("generation failed:", ns.gen_error)
         ctx.cleanup()
